@@ -220,6 +220,17 @@ theorem host_call_after_late_stop_witness :
     (runSpec HSt.init (XEv.plain evs)).results = [18, 17, 16, 15, 14] := by
   decide
 
+/-- what a `…WithContext` call that stops the interpreter WITHOUT running an `Execute` would do (the unchanged source
+    always calls `Eval`; seeded/C10-3 skips it under an expired context): the root frame is left stale, every direct
+    host call returns the zero value until the next evaluation. The correspondence harness reports such an event
+    (`expn`) under a class of its own, which is not listed: a VIOLATION. -/
+theorem host_call_after_stop_without_execute_witness :
+    let evs := [XEv.ev (.define .hostWrapper 3 1 false), .ev (.define .closure 2 2 false), .stopOnly, .ev (.use 0 .host 4),
+                .ev (.use 1 .host 4), .ev (.use 1 .eval 4), .ev (.use 0 .host 4)]
+    (runX Generated.C10.facts evs).results = [14, 11, 0, 0] ∧
+    (runSpec HSt.init (XEv.plain evs)).results = [15, 12, 11, 14] := by
+  decide
+
 /-! ### before the repairs (statements about the old facts) -/
 
 /-- F10, closures: with the facts of the tree before 4a41b28 a closure stored in a variable works before the
